@@ -30,6 +30,48 @@ def lib():
     return _xl
 
 
+class fresh_library(object):
+    """Context manager: a second, independent copy of the library.
+
+    Inside the block `lib()` (and with it every helper of vf.core.lib and
+    norm()) is a freshly imported copy of the xlcalculator package: new
+    module objects, hence new classes, registries, caches and every other
+    piece of module-level state - what a new Python process would see, for
+    ~50 ms instead of a second.  On exit the original copy is back.  Used to
+    observe values WITHOUT whatever the library may have remembered from
+    earlier work in this process."""
+
+    def __enter__(self):
+        import importlib
+        import sys
+        global _xl
+        lib()
+        self.saved = {k: m for k, m in sys.modules.items()
+                      if k == 'xlcalculator' or k.startswith('xlcalculator.')}
+        self.saved_xl = _xl
+        for k in self.saved:
+            del sys.modules[k]
+        try:
+            _xl = importlib.import_module('xlcalculator')
+        except BaseException:
+            self._restore()
+            raise
+        return _xl
+
+    def _restore(self):
+        import sys
+        global _xl
+        for k in [k for k in sys.modules
+                  if k == 'xlcalculator' or k.startswith('xlcalculator.')]:
+            del sys.modules[k]
+        sys.modules.update(self.saved)
+        _xl = self.saved_xl
+
+    def __exit__(self, *exc):
+        self._restore()
+        return False
+
+
 def norm(v):
     xl = lib()
     if isinstance(v, xl.ExcelError):
